@@ -432,6 +432,10 @@ class HttpParser:
 
         body_part, rest = rest[:size], rest[size:]
         if len(rest) < 2:
+            # the CRLF that ends the chunk has not arrived yet: not an error
+            # (errno is for what can never become valid)
+            return None
+        if rest[:2] != b'\r\n':
             self.errno = INVALID_CHUNK
             self.errstr = 'chunk missing terminator [%s]' % data
             return -1
@@ -452,10 +456,11 @@ class HttpParser:
             return None, None
         line, rest_chunk = data[:idx], data[idx + 2 :]
         chunk_size = line.split(b';', 1)[0].strip()
-        try:
-            chunk_size = int(chunk_size, 16)
-        except ValueError:
+        # rfc 7230 sec 4.1: chunk-size = 1*HEXDIG (int() would also take a
+        # sign, '0x', '_' ...)
+        if not chunk_size or chunk_size.strip(b'0123456789abcdefABCDEF'):
             raise InvalidChunkSize(chunk_size)
+        chunk_size = int(chunk_size, 16)
 
         if chunk_size == 0:
             # the last chunk is followed by optional trailers and a final
